@@ -263,7 +263,11 @@ pub fn check_order(c: &OrderCase) -> CheckResult {
 }
 
 fn order_strategy(max_lane: usize, with_n32: bool) -> impl Strategy<Value = OrderCase> {
-    (ty_strategy(with_n32), 1usize..max_lane)
+    order_strategy_with((1usize..max_lane).boxed(), with_n32)
+}
+
+fn order_strategy_with(len: BoxedStrategy<usize>, with_n32: bool) -> impl Strategy<Value = OrderCase> {
+    (ty_strategy(with_n32), len)
         .prop_flat_map(|(ty, n)| {
             (
                 Just(ty),
@@ -373,10 +377,12 @@ pub fn run_c19(ctx: &Ctx) {
     let t = ctx.tier();
     enum_perms(ctx, t.pick(7, 8));
     ctx.run_proptest("order", t.pick(20_000, 700_000), order_strategy(t.pick(40, 200), t == Tier::Thorough), &check_order);
+    // long lanes (lengths around powers of two and block sizes)
+    ctx.run_proptest("order-long", t.pick(400, 12_000), order_strategy_with(crate::gen::long_len(129, t.pick(3_000, 5_000)), t == Tier::Thorough), &check_order);
 }
 
 pub fn replayers() -> Vec<(&'static str, ReplayFn)> {
-    vec![("order", |v| replay_with::<OrderCase>(v, &check_order))]
+    vec![("order", |v| replay_with::<OrderCase>(v, &check_order)), ("order-long", |v| replay_with::<OrderCase>(v, &check_order))]
 }
 
 #[allow(dead_code)]
